@@ -407,7 +407,9 @@ namespace detail {
                     node_receiver_type& receiver,
                     result_options options) const override
         {
-                this->tail_select(context, root, last, root, receiver, options);
+            // the path of the root is "$", whatever the path of the current node is (e.g. in a union, $[*][0,$.a])
+            const path_node_type& root_path = last.parent() == nullptr ? last : *context.create_path_node();
+            this->tail_select(context, root, root_path, root, receiver, options);
         }
 
         reference evaluate(eval_context<Json,JsonReference>& context,
